@@ -1,6 +1,7 @@
 package c05
 
 import (
+	"strings"
 	"encoding/json"
 	"fmt"
 	"os"
@@ -99,7 +100,7 @@ func checkCase(t ev.TB, fe *fontEntry, c *Case, survey func(class string, f fail
 
 	excludedDiff := false
 	if !sameGlyphs(got.Glyphs, want.Glyphs) {
-		cls := triage(fe, c, got.Glyphs, want.Glyphs)
+		cls := triage(fe, c, got, want)
 		if cls.id != "" {
 			ev.Label("disagree_" + cls.id)
 			if cls.excluded {
@@ -377,5 +378,217 @@ func TestReplay(t *testing.T) {
 			continue
 		}
 		checkCase(t, fe, &c, nil)
+	}
+}
+
+// TestOne (triage aid): C05_CASE='<case json>' prints what both sides produce for one case.
+func TestOne(t *testing.T) {
+	s := os.Getenv("C05_CASE")
+	if s == "" {
+		t.Skip("set C05_CASE")
+	}
+	requireReference()
+	var c Case
+	if err := json.Unmarshal([]byte(s), &c); err != nil {
+		t.Fatal(err)
+	}
+	fe, err := loadFont(c.Font, c.Index)
+	if err != nil {
+		t.Fatal(err)
+	}
+	got, perr := shapePort(fe, &c)
+	want := shapeRef(fe, &c)
+	resetRef(fe)
+	t.Logf("font scripts=%v feats=%v axes=%v space=%v hbOK=%v", fe.scripts, fe.feats, fe.axes, fe.space, fe.hbOK)
+	t.Logf("text %U item [%d,%d)", c.runes(), c.Offset, c.Offset+c.Length)
+	t.Logf("port err=%v script=%08x dir=%d\n  %s", perr, uint32(got.Script), got.Dir, fmtGlyphs(got.Glyphs))
+	t.Logf("ref  ok=%v script=%08x dir=%d\n  %s", want.OK, want.Script, want.Dir, fmtGlyphs(want.Glyphs))
+	for _, r := range c.item() {
+		g, ok := fe.face.NominalGlyph(r)
+		hg, hok := fe.hb.NominalGlyph(r)
+		name, _ := fe.hb.GlyphName(hg)
+		t.Logf("  %U port gid %d,%v  ref gid %d,%v %s", r, g, ok, hg, hok, name)
+	}
+	if perr == nil {
+		setRefVars(fe, &c)
+		seen := map[uint32]bool{}
+		for _, g := range append(append([]G(nil), got.Glyphs...), want.Glyphs...) {
+			if seen[g.ID] {
+				continue
+			}
+			seen[g.ID] = true
+			pe, pok := got.font.GlyphExtents(harfbuzzGID(g.ID))
+			re, rok := fe.hb.GlyphExtents(g.ID)
+			t.Logf("  glyph %d: port adv %d ext %+v,%v | ref adv %d ext %+v,%v", g.ID, got.font.GlyphHAdvance(harfbuzzGID(g.ID)), pe, pok, fe.hb.HAdvance(g.ID), re, rok)
+		}
+		resetRef(fe)
+	}
+	if os.Getenv("C05_CHECK") != "" {
+		checkCase(t, fe, &c, nil)
+	}
+}
+
+// disagree reports whether the two sides differ on the case (panic counts as differing).
+func disagree(fe *fontEntry, c *Case) bool {
+	got, err := shapePort(fe, c)
+	want := shapeRef(fe, c)
+	resetRef(fe)
+	return err != nil || !sameGlyphs(got.Glyphs, want.Glyphs)
+}
+
+// minimize greedily simplifies a disagreeing case while it keeps disagreeing (triage aid).
+func minimize(fe *fontEntry, c Case) Case {
+	try := func(d Case) bool {
+		if d.wellFormed() != nil {
+			return false
+		}
+		if disagree(fe, &d) {
+			c = d
+			return true
+		}
+		return false
+	}
+	for changed := true; changed; {
+		changed = false
+		if c.Offset != 0 || c.Length != len(c.Text) { // drop the context
+			d := c
+			d.Text = append([]int(nil), c.Text[c.Offset:c.Offset+c.Length]...)
+			for i := range d.Features {
+				if d.Features[i].Start >= c.Offset {
+					d.Features[i].Start -= c.Offset
+				}
+				if d.Features[i].End >= c.Offset {
+					d.Features[i].End -= c.Offset
+				}
+			}
+			d.Offset = 0
+			changed = try(d) || changed
+		}
+		for i := 0; i < len(c.Text); i++ { // delete runes
+			if c.Offset != 0 || c.Length != len(c.Text) {
+				break
+			}
+			d := c
+			d.Text = append(append([]int(nil), c.Text[:i]...), c.Text[i+1:]...)
+			d.Length = len(d.Text)
+			d.Features = nil
+			for _, f := range c.Features {
+				if f.Start > i {
+					f.Start--
+				}
+				if f.End > i {
+					f.End--
+				}
+				d.Features = append(d.Features, f)
+			}
+			if try(d) {
+				changed = true
+				i--
+			}
+		}
+		for i := range c.Features {
+			d := c
+			d.Features = append(append([]Feat(nil), c.Features[:i]...), c.Features[i+1:]...)
+			if try(d) {
+				changed = true
+				break
+			}
+		}
+		for i := range c.Vars {
+			d := c
+			d.Vars = append(append([]Var(nil), c.Vars[:i]...), c.Vars[i+1:]...)
+			if try(d) {
+				changed = true
+				break
+			}
+		}
+		for _, f := range []func(d *Case){
+			func(d *Case) { d.Flags = 3 }, func(d *Case) { d.Cluster = 0 }, func(d *Case) { d.Lang = "" }, func(d *Case) { d.Script = "" },
+			func(d *Case) {
+				if d.Dir != 4 {
+					d.Dir = 0
+				}
+			}, func(d *Case) { d.Dir = 4 },
+		} {
+			d := c
+			f(&d)
+			if mustJSON(d) != mustJSON(c) && try(d) {
+				changed = true
+			}
+		}
+		for i := range c.Features { // simplify feature ranges
+			if c.Features[i].Start != 0 || c.Features[i].End != -1 {
+				d := c
+				d.Features = append([]Feat(nil), c.Features...)
+				d.Features[i].Start, d.Features[i].End = 0, -1
+				changed = try(d) || changed
+			}
+		}
+	}
+	return c
+}
+
+// TestMinimize (triage aid): C05_CASE='<case json>' prints the greedily minimised case.
+func TestMinimize(t *testing.T) {
+	s := os.Getenv("C05_CASE")
+	if s == "" {
+		t.Skip("set C05_CASE")
+	}
+	requireReference()
+	var c Case
+	if err := json.Unmarshal([]byte(s), &c); err != nil {
+		t.Fatal(err)
+	}
+	fe, err := loadFont(c.Font, c.Index)
+	if err != nil {
+		t.Fatal(err)
+	}
+	if !disagree(fe, &c) {
+		t.Log("the two sides agree on this case")
+		return
+	}
+	m := minimize(fe, c)
+	got, perr := shapePort(fe, &m)
+	want := shapeRef(fe, &m)
+	resetRef(fe)
+	fmt.Printf("MIN %s\n text %U\n port %s %v\n ref  %s\n", mustJSON(m), m.runes(), fmtGlyphs(got.Glyphs), perr, fmtGlyphs(want.Glyphs))
+}
+
+// TestMinimizeSurvey (triage aid): C05_SURVEY_IN=<survey file> minimises every recorded shape
+// disagreement and prints the minimal cases.
+func TestMinimizeSurvey(t *testing.T) {
+	in := os.Getenv("C05_SURVEY_IN")
+	if in == "" {
+		t.Skip("set C05_SURVEY_IN")
+	}
+	requireReference()
+	b, err := os.ReadFile(in)
+	if err != nil {
+		t.Fatal(err)
+	}
+	seen := map[string]bool{}
+	for _, line := range strings.Split(string(b), "\n") {
+		var row struct {
+			Class   string  `json:"class"`
+			Failure failure `json:"failure"`
+		}
+		if json.Unmarshal([]byte(line), &row) != nil || row.Failure.Case == nil || !strings.HasPrefix(row.Class, "shape") {
+			continue
+		}
+		c := *row.Failure.Case
+		fe, err := loadFont(c.Font, c.Index)
+		if err != nil || !disagree(fe, &c) {
+			continue
+		}
+		m := minimize(fe, c)
+		k := mustJSON(m)
+		if seen[k] {
+			continue
+		}
+		seen[k] = true
+		got, perr := shapePort(fe, &m)
+		want := shapeRef(fe, &m)
+		resetRef(fe)
+		fmt.Printf("MIN %s\n text %U\n port %s %v\n ref  %s\n", k, m.runes(), fmtGlyphs(got.Glyphs), perr, fmtGlyphs(want.Glyphs))
 	}
 }
